@@ -120,6 +120,49 @@ def run(ctx):
             if not bound:
                 res.find(key, fn.loc(m["sp"]), "%s does not bind the payload of Expression::%s in an explicit arm: it cannot look it up / report it" % (label, leaf), "`%x + theta[0]`")
 
+    # ---- R1b helper traversals: every self-recursive local function that matches on Expression and is called from one
+    # of the three traversals (e.g. a "does it contain variables" pre-check) must cover the same child-holding variants
+    nhelp = 0
+    seen_h = {ev.dp, sv.dp, nx.dp}
+    work = [(ev, "evaluate"), (sv, "substitute_variables"), (nx, "MemoryReferences::next")]
+    depth = {ev.dp: 0, sv.dp: 0, nx.dp: 0}
+    while work:
+        g0, via = work.pop()
+        for g in [g0] + db.closures_of(g0):
+            for bb, t, c in g.calls():
+                if not c:
+                    continue
+                for h in db.by_path.get(callee_path(c), []):
+                    if h.dp in seen_h or depth[g0.dp] >= 2:
+                        continue
+                    seen_h.add(h.dp)
+                    depth[h.dp] = depth[g0.dp] + 1
+                    work.append((h, via))
+                    hm = k2.match_on(db, h, EXPRESSION)
+                    selfrec = any(c2 and callee_path(c2) == h.path for g2 in [h] + db.closures_of(h) for b2, t2, c2 in g2.calls())
+                    if not hm or not selfrec:
+                        continue
+                    nhelp += 1
+                    m2 = max(hm, key=lambda x: len(x["arms"]))
+                    cov2 = k2.pattern_coverage(db, m2, EXPRESSION, epred)
+                    for v in sorted(children):
+                        c2 = cov2[v]
+                        key = "K2|helper-traversal|%s|%s" % (h.path, v)
+                        ok = c2["arm"] == "explicit" and not c2["missing"]
+                        res.site(key, True, {"helper": h.path, "called_from": via, "variant": v, "arm": c2["arm"], "verdict": "ok" if ok else "VIOLATION"})
+                        if not ok:
+                            res.find(key, h.loc(), "%s (a recursive helper of %s) does not descend into Expression::%s (%s): sub-expressions there are invisible to it" % (h.path.replace("quil_rs::", ""), via, v, c2["arm"]), "a variable that occurs only inside a %s node, e.g. `cos(%%x)`" % v)
+    res.count("recursive_helper_traversals", nhelp)
+
+    # no defaulting of a failed lookup inside evaluate: a missing variable / memory cell must surface as Incomplete
+    for g in [ev] + db.closures_of(ev):
+        for bb, t, c in g.calls():
+            if c and c.get("name") in ("unwrap_or", "unwrap_or_default", "unwrap_or_else", "map_or", "or", "or_else", "or_insert", "or_default") and ("Option" in callee_path(c) or "Entry" in callee_path(c)):
+                key = "K6|evaluate-defaults-lookup|%s" % c.get("name")
+                res.site(key, True)
+                res.find(key, g.loc(t["sp"]), "Expression::evaluate substitutes a default (`%s`) for a failed lookup: evaluation succeeds although a variable or memory cell is not supplied" % callee_path(c), "`theta[2]` with theta = [1.5, 2.5] evaluates to 0 instead of failing with Incomplete")
+    res.site("K6|evaluate-defaults-lookup", True, {"verdict": "checked"})
+
     # ---- R2 substitute_variables rebuilds with the same operator / function / positions
     for bb, s in aggregates(sv):
         a = s["rv"]["a"]
